@@ -36,6 +36,8 @@ var verifStepLimit = 1 << 30
 var verifConcurrent int32 // when set, nothing shared is written
 var verifYield int32      // inject scheduling points in GetToken/actions
 var verifNested func(at int) // called from GetToken at token index at (nesting monitor)
+var verifWatchCell bool      // c15 mode: watch the value cell handed to the lexer at the first token of a parse
+var verifDirty bool
 
 func verifR(k int) {
 	if atomic.LoadInt32(&verifYield) != 0 {
@@ -66,6 +68,10 @@ func verifGetToken(input string, val *ValType, pos *int) int {
 	}
 	conc := atomic.LoadInt32(&verifConcurrent) != 0
 	if !conc {
+		if verifFetched == 0 && *val != (ValType{}) {
+			// a lexer that accumulates into the cell would see what an earlier parse left there
+			verifDirty = true
+		}
 		verifFetched++
 		if verifNested != nil {
 			verifNested(*pos)
@@ -198,6 +204,7 @@ func VerifMain(reqPath, respPath string) {
 		t := VerifDumpTable(req.Probe)
 		resp.Table = &t
 	}
+	verifWatchCell = req.Mode == "c15"
 	verifModes(&req, &resp)
 	ob, _ := json.Marshal(resp)
 	if err := os.WriteFile(respPath, ob, 0644); err != nil {
@@ -207,6 +214,7 @@ func VerifMain(reqPath, respPath string) {
 
 func verifBegin(k int) {
 	verifLog, verifFetchLog, verifFetched = nil, nil, 0
+	verifDirty = false
 	if IsTrace {
 		fmt.Printf("@@BEGIN %d\n", k)
 	}
@@ -227,6 +235,9 @@ func verifParseOnce(k int, in string) (res VerifResult) {
 			res.Verdict, res.Msg = verifClassify(e)
 		}
 		res.Log, res.Fetch, res.Fetched = verifLog, verifFetchLog, verifFetched
+		if verifWatchCell && verifDirty {
+			res.Verdict = "first-value-cell-not-fresh:" + res.Verdict
+		}
 		if res.Log == nil {
 			res.Log = []int{}
 		}
@@ -349,6 +360,9 @@ func verifParseCtx(c *Context, k int, in string, record bool) (res VerifResult) 
 		}
 		if record {
 			res.Log, res.Fetch, res.Fetched = verifLog, verifFetchLog, verifFetched
+		if verifWatchCell && verifDirty {
+			res.Verdict = "first-value-cell-not-fresh:" + res.Verdict
+		}
 			verifEnd(k)
 		}
 		if res.Log == nil {
